@@ -2,7 +2,8 @@
 
 Specification style: every range primitive is specified pointwise on integer positions, i.e. against the set
 {p | lo <= p <= hi} the interval denotes, not against another formula of the same shape."""
-from pyvc.api import contract, spec, lemma, enum_from_repo
+from pyvc.api import contract, spec, lemma, enum_from_repo, bounded
+from pyvc import native
 
 C = "src/common.py:"
 IV = "tuple[int,int]"
@@ -420,3 +421,152 @@ contract(C + "get_blocks_from_profile", {"features": IVS, "profile": PROF}, retu
 @spec("list[int], int -> int")
 def ones(p, n):
     return 0 if n <= 0 else ones(p, n - 1) + (1 if p[n - 1] == 1 else 0)
+
+
+# ---- set-of-positions semantics of the sweeps that are not (yet) under a discharged contract: bounded stand-in -------------------------
+def _pos(L):
+    s = set()
+    for a, b in L:
+        s.update(range(a, b + 1))
+    return s
+
+
+def _blocks_of(posset):
+    out = []
+    for p in sorted(posset):
+        if out and out[-1][1] == p - 1:
+            out[-1] = (out[-1][0], p)
+        else:
+            out.append((p, p))
+    return out
+
+
+def _set_semantics_problems(L1, L2):
+    com = native.repo_import("src/common.py")
+    gi = native.repo_import("src/gene_info.py")
+    A, B = _pos(L1), _pos(L2)
+    problems = []
+    try:
+        j = com.jaccard_similarity(list(L1), list(L2))
+        if abs(j - len(A & B) / len(A | B)) > 1e-12:
+            problems.append("jaccard_similarity = %r, |A&B|/|A|B| = %d/%d" % (j, len(A & B), len(A | B)))
+    except AssertionError as e:
+        problems.append("jaccard_similarity raised AssertionError %s" % e)
+    try:
+        u = com.merge_ranges(list(L1), list(L2))
+        # the union as a list of sorted disjoint blocks covering exactly A | B (adjacent blocks need not be glued)
+        if _pos(u) != (A | B) or sum(b - a + 1 for a, b in u) != len(A | B) or any(u[i][1] >= u[i + 1][0] for i in range(len(u) - 1)):
+            problems.append("merge_ranges = %r does not tile A|B" % (u,))
+    except AssertionError as e:
+        problems.append("merge_ranges raised AssertionError %s" % e)
+    f = com.read_coverage_fraction(list(L1), list(L2))
+    if abs(f - len(A & B) / len(A)) > 1e-12:
+        problems.append("read_coverage_fraction = %r, |A&B|/|A| = %d/%d" % (f, len(A & B), len(A)))
+    lo, hi = min(B), max(B)
+    x = com.extra_exon_percentage((lo, hi), list(L1))
+    if abs(x - len([p for p in A if p < lo or p > hi]) / len(A)) > 1e-12:
+        problems.append("extra_exon_percentage(%s) = %r" % ((lo, hi), x))
+    # split_exons: the coarsest common refinement of a set of (overlapping) exons: disjoint sorted blocks covering exactly the union,
+    # every exon a union of consecutive blocks
+    exons = sorted(set(L1) | set(L2))
+    blocks = gi.GeneInfo.split_exons(exons)
+    if _pos(blocks) != (A | B) or any(blocks[i][1] >= blocks[i + 1][0] for i in range(len(blocks) - 1)) or any(a > b for a, b in blocks):
+        problems.append("split_exons(%s) = %s does not tile the union" % (exons, blocks))
+    else:
+        for e in exons:
+            inside_ = [b for b in blocks if b[0] >= e[0] and b[1] <= e[1]]
+            if _pos(inside_) != _pos([e]):
+                problems.append("split_exons(%s) = %s: exon %s is not a union of blocks" % (exons, blocks, e))
+        borders = {e[0] for e in exons} | {e[1] + 1 for e in exons}
+        if any(b[0] not in borders or b[1] + 1 not in borders for b in blocks):
+            problems.append("split_exons(%s) = %s: a block border is not an exon border" % (exons, blocks))
+    return problems
+
+
+def _truncate_problems(L, pa, pt):
+    com = native.repo_import("src/common.py")
+    problems = []
+    r = com.truncate_read_to_polya(list(L), pa, pt)
+    A = _pos(L)
+    keep = {p for p in A if (pa == -1 or p <= pa) and (pt == -1 or p >= pt)}
+    # truncation at polyA keeps exactly the aligned positions up to the polyA position and from the polyT position on; the new terminal
+    # coordinates are the tail positions themselves (which always lie inside or at the border of an exon when taken from the read)
+    if not keep:
+        return problems
+    inner = _pos(r)
+    core = {p for p in inner if (pa == -1 or p < pa) and (pt == -1 or p > pt)}
+    want = {p for p in keep if (pa == -1 or p < pa) and (pt == -1 or p > pt)}
+    if core != want:
+        problems.append("truncate_read_to_polya(%s, %d, %d) = %s keeps %s, expected %s strictly inside the tails" % (L, pa, pt, r, sorted(core)[:8], sorted(want)[:8]))
+    if pa != -1 and r and r[-1][1] != pa:
+        problems.append("truncate_read_to_polya(%s, %d, %d) = %s does not end at the polyA position" % (L, pa, pt, r))
+    if pt != -1 and r and r[0][0] != pt:
+        problems.append("truncate_read_to_polya(%s, %d, %d) = %s does not start at the polyT position" % (L, pa, pt, r))
+    return problems
+
+
+def replay_set_semantics(d):
+    i = d["inputs"]
+    if "polya" in i:
+        p = _truncate_problems([tuple(x) for x in i["L1"]], i["polya"], i["polyt"])
+    else:
+        p = _set_semantics_problems([tuple(x) for x in i["L1"]], [tuple(x) for x in i["L2"]])
+    return (not p), "%s: %s" % (i, p or "equal to the set-of-positions definition")
+
+
+@bounded("C19.set_semantics", ["C19"], note="jaccard_similarity, merge_ranges, read_coverage_fraction, extra_exon_percentage, GeneInfo.split_exons "
+         "and truncate_read_to_polya against the definition on sets of positions: ALL pairs of sorted disjoint interval lists over the "
+         "coordinates 1..7 (quick: 1..6), all polyA/polyT positions inside the read, plus random large instances")
+def c19_set_semantics(tier, rng):
+    import itertools
+    U = 6 if tier == "quick" else 7
+    lists = []
+    for mask in range(1, 2 ** U):
+        lists.append(_blocks_of({p + 1 for p in range(U) if mask >> p & 1}))
+    # the same position sets with adjacent blocks left unglued (touching intervals)
+    extra = []
+    for L in lists:
+        for k, (a, b) in enumerate(L):
+            if b > a:
+                extra.append(L[:k] + [(a, a), (a + 1, b)] + L[k + 1:])
+    lists += extra[:len(extra) if tier != "quick" else 60]
+    cases = 0
+
+    def viol(inputs, p):
+        return {"cases": cases, "bound": "small scope", "violations": [{
+            "obligation": "C19.set_semantics", "inputs": inputs, "observed": p[:3], "required": "the result defined on the underlying sets of positions",
+            "replay_call": "contracts.c_common:replay_set_semantics"}]}
+    for L1 in lists:
+        for L2 in lists:
+            cases += 1
+            p = _set_semantics_problems(L1, L2)
+            if p:
+                return viol({"L1": L1, "L2": L2}, p)
+    for L in lists:
+        if any(L[i][1] + 1 >= L[i + 1][0] for i in range(len(L) - 1)):
+            continue
+        pts = sorted(_pos(L))
+        for pa in [-1] + pts:
+            for pt in [-1] + pts:
+                if pa != -1 and pt != -1 and pt >= pa:
+                    continue
+                cases += 1
+                p = _truncate_problems(L, pa, pt)
+                if p:
+                    return viol({"L1": L, "polya": pa, "polyt": pt}, p)
+    for _ in range(300 if tier == "quick" else 20000):
+        def rl():
+            out, p = [], rng.randint(1, 50)
+            for _i in range(rng.randint(1, 12)):
+                a = p + rng.randint(1, 300)
+                b = a + rng.randint(0, 800)
+                out.append((a, b))
+                p = b
+            return out
+        L1, L2 = rl(), rl()
+        cases += 1
+        p = _set_semantics_problems(L1, L2)
+        if p:
+            return viol({"L1": L1, "L2": L2}, p)
+    return {"cases": cases, "bound": "all pairs of interval lists over 1..%d (incl. touching blocks), all tail positions, random large pairs" % U,
+            "exhaustive": True, "violations": [], "samples": [{"L1": [(1, 2), (4, 4)], "L2": [(2, 5)]}]}
